@@ -21,7 +21,7 @@ RULE = ('generated applications (2-4 services, 6-14 methods with case variants, 
         'dispatched or refused with a decoded fault; distinct by (channel, permutation, name class, outcome).')
 ASSUMPTIONS = [
     'an unqualified XML root (no namespace at all) is recorded, not judged: the statement speaks of "a different namespace"',
-    'auxiliary methods are not generated',
+    'auxiliary methods: one SyncAuxProc service per second application, listed first or last',
 ]
 REQUIRED_COUNTERS = ('registered_calls', 'near_miss_calls', 'functions_entered', 'duplicate_constructions', 'pattern_calls')
 CHANNELS = ('xml', 'soap11', 'soap12', 'json', 'yaml', 'msgpack', 'msgpack-bkeys', 'msgpackrpc', 'httprpc-json')
@@ -80,7 +80,7 @@ def has_placeholder(si, mi):
     return (si + mi) % 3 == 0
 
 
-def build(spec_services, order, kind, calls, patterns=False, seen=None):
+def build(spec_services, order, kind, calls, patterns=False, seen=None, aux_of=None, aux_first=False):
     """services listed in the given order; every function reports (service idx, python name)"""
     from spyne import Application, Service, rpc, Integer
     from spyne.protocol.http import HttpPattern
@@ -113,7 +113,23 @@ def build(spec_services, order, kind, calls, patterns=False, seen=None):
             d[pyname] = rpc(*([Integer] if ph else []), **kw)(make())
         svcs.append(type(str('Svc%d' % si), (Service,), d))
     inp, outp = M.make_protocols(kind, None)
-    app = Application([svcs[i] for i in order], M.TNS, name='C11App', in_protocol=inp, out_protocol=outp)
+    listed = [svcs[i] for i in order]
+    if aux_of is not None:
+        # an auxiliary service: its method of the same public name runs in addition to (after) the primary one
+        from spyne.auxproc.sync import SyncAuxProc
+        asi, apyname, aop = aux_of
+
+        def af(ctx):
+            calls.append(('aux', apyname))
+        af.__name__ = str(apyname)
+        akw = {}
+        if aop and aop.startswith('in:'):
+            akw['_in_message_name'] = aop[3:]
+        elif aop:
+            akw['_operation_name'] = aop
+        AuxSvc = type(str('AuxSvc'), (Service,), {'__aux__': SyncAuxProc(), apyname: rpc(**akw)(af)})
+        listed = ([AuxSvc] + listed) if aux_first else (listed + [AuxSvc])
+    app = Application(listed, M.TNS, name='C11App', in_protocol=inp, out_protocol=outp)
     return app
 
 
@@ -159,21 +175,27 @@ def run_app(R, seed, aid, tier):
         channels = rng.sample(channels, 4)
     from spyne.server.wsgi import WsgiApplication
     run_patterns(R, seed, aid, tier, spec, registered, perms, rng)
+    # every other application has one auxiliary method (for a method without a placeholder argument)
+    aux_of = None
+    if aid % 2 == 0:
+        cands = [(si, pyname, op) for si, methods in enumerate(spec) for (pyname, op) in methods]
+        aux_of = rng.choice(cands)
     for channel in channels:
         kind = channel.replace('-bkeys', '')
         baseline = {}
         for pi, order in enumerate(perms):
             calls = []
             try:
-                app = build(spec, order, kind, calls)
+                app = build(spec, order, kind, calls, aux_of=aux_of, aux_first=bool(pi % 2))
             except Exception as e:
                 R.violation('application with distinct method names was rejected at construction: %r' % e, {'seed': seed, 'app': aid, 'channel': channel},
                             mech='valid_app_rejected:%s' % type(e).__name__)
                 break
             wsgi = WsgiApplication(app)
-            repro = {'seed': seed, 'app': aid, 'channel': channel, 'order': list(order), 'services': spec}
+            repro = {'seed': seed, 'app': aid, 'channel': channel, 'order': list(order), 'services': spec, 'aux_of': aux_of, 'aux_first': bool(pi % 2)}
             for name, owner in sorted(registered.items()):
-                one(R, wsgi, calls, channel, name, M.TNS, owner, repro, baseline, pi)
+                one(R, wsgi, calls, channel, name, M.TNS, owner, repro, baseline, pi,
+                    aux=(aux_of is not None and owner == (aux_of[0], aux_of[1])))
             if pi == 0 or tier == 'thorough':
                 for name in sorted(registered):
                     for nm in [x for x in near_misses(name, registered) if not (kind in ('xml', 'soap11', 'soap12') and not x.isidentifier())][: 4 if tier == 'quick' else 20]:
@@ -237,7 +259,7 @@ def run_patterns(R, seed, aid, tier, spec, registered, perms, rng):
             one(R, wsgi, calls, 'httprpc-json', name, M.TNS, owner, repro, None, pi)
 
 
-def one(R, wsgi, calls, channel, name, ns, owner, repro, baseline, pi):
+def one(R, wsgi, calls, channel, name, ns, owner, repro, baseline, pi, aux=False):
     kind = channel.replace('-bkeys', '').replace('-odd', '')
     if kind == 'httppattern':
         kind = 'httprpc-json'
@@ -266,6 +288,13 @@ def one(R, wsgi, calls, channel, name, ns, owner, repro, baseline, pi):
         return
     if owner is not None:
         R.count('registered_calls')
+        if aux:
+            R.count('aux_calls')
+            if entered != [owner, ('aux', owner[1])]:
+                R.violation('request naming %r (which has an auxiliary method) entered %r, expected the primary then the auxiliary function' % (name, entered), case,
+                            mech='aux_dispatch:%s' % ('none' if not entered else 'primary_only' if entered == [owner] else 'other'))
+                return
+            entered = [owner]
         if entered != [owner]:
             R.violation('request naming %r entered %r, registered function is %r' % (name, entered, owner), case,
                         mech='wrong_dispatch:%s' % ('none' if not entered else 'multiple' if len(entered) > 1 else 'other'))
